@@ -1099,6 +1099,43 @@ def pfo_facts(repo, sk, facts, notes):
 # ===== C12/C16 formatter sharing block end =====
 
 
+# ===== TEB block begin (TransitEventBuffer skeletons and the facts that select the variant of M-TEB; C03 / C20) =====
+def teb_facts(repo, sk, facts, notes):
+    inc = os.path.join(repo, 'include', 'quill')
+    p = os.path.join(inc, 'backend', 'TransitEventBuffer.h')
+    docs = run_clang('#include "quill/backend/TransitEventBuffer.h"\n', 'TransitEventBuffer', repo)
+    for m in ('front', 'pop_front', 'back', 'push_back', 'size', 'capacity', 'empty', 'request_shrink', 'try_shrink', '_expand'):
+        sk['teb_' + m] = method_skeleton(docs, p, m) or []
+    ex = sk['teb__expand']; ts = sk['teb_try_shrink']; bk = sk['teb_back']
+    g = [re.match(r'DECL size_t const new_capacity = _capacity \* (\d+);$', l) for l in ex]
+    g = [m for m in g if m]
+    facts['teb_grow'] = int(g[0].group(1)) if len(g) == 1 else 0
+    def after(lines, a, b):
+        ia = [i for i, l in enumerate(lines) if l.strip() == a]
+        ib = [i for i, l in enumerate(lines) if l.strip() == b]
+        return bool(len(ia) == 1 and len(ib) == 1 and ia[0] < ib[0])
+    facts['teb_mask_upd'] = (after(ex, 'EXPR _capacity = new_capacity', 'EXPR _mask = _capacity - 1') and
+                             after(ts, 'EXPR _capacity = _initial_capacity', 'EXPR _mask = _capacity - 1'))
+    facts['teb_move_from_reader'] = any(l.strip() == 'EXPR new_storage[i] = std::move(_storage[(_reader_pos + i) & _mask])' for l in ex)
+    facts['teb_shrink_needs_empty'] = bool(ts and ts[0] == 'IF _shrink_requested && empty()')
+    facts['teb_full_test_exact'] = bool(bk and bk[0] == 'IF _capacity == size()')
+    # the constructor's member initialisers (not a method body in the AST dump): capacity rounded up to a power of two,
+    # mask = capacity - 1
+    src = open(p).read()
+    m = re.search(r'explicit TransitEventBuffer\(size_t initial_capacity\)\s*:(.*?)\{', src, re.S)
+    init = re.sub(r'\s+', ' ', m.group(1)).strip() if m else ''
+    facts['teb_ctor_ok'] = (init == '_initial_capacity(next_power_of_two(initial_capacity)), _capacity(_initial_capacity), '
+                                    '_storage(std::make_unique<TransitEvent[]>(_capacity)), _mask(_capacity - 1u)')
+    # the backend asks the buffer to shrink when the frontend queue was shrunk, and tries it on the idle path
+    bw = open(os.path.join(inc, 'backend', 'BackendWorker.h')).read()
+    facts['teb_backend_requests_shrink'] = bool(re.search(
+        r'if \(\(read_result\.new_capacity < read_result\.previous_capacity\) && thread_context->_transit_event_buffer\)\s*\{[^}]*'
+        r'thread_context->_transit_event_buffer->request_shrink\(\);', bw, re.S))
+    facts['teb_backend_tries_shrink_when_idle'] = bool(re.search(
+        r'if \(queues_and_events_empty\)\s*\{\s*_cleanup_invalidated_thread_contexts\(\);\s*_cleanup_invalidated_loggers\(\);\s*'
+        r'_try_shrink_empty_transit_event_buffers\(\);', bw))
+# ===== TEB block end =====
+
 def main():
     repo = REPO; out = os.path.join(os.path.dirname(os.path.abspath(__file__)), '..', 'coq', 'gen', 'SrcFacts.v')
     a = sys.argv[1:]
@@ -1121,6 +1158,7 @@ def main():
     rot_facts(repo, sk, facts, notes)   # C14/C15 block
     c04t_facts(repo, sk, facts, notes)   # C04 repair block
     pfo_facts(repo, sk, facts, notes)   # C12/C16 formatter sharing block
+    teb_facts(repo, sk, facts, notes)   # TEB block (C03/C20)
     txt = emit(sk, facts, notes, os.path.normpath(out))
     if dump:
         for k in sorted(sk):
